@@ -43,7 +43,7 @@ RULE = ('class tables built with types.new_class.  GenericMixin: every shape fam
         'families, seeded otherwise) + seeded random tables of 1-6 classes.  WithDecoratedMethods: classes with 0-6 '
         'sync/async methods (names plain, _single, __dunder__, __private) x 0-3 create_decorator applications per method '
         '(members of the enum, repeated member, a foreign enum) x transformation none/identity/functools.wraps/attribute-'
-        'dropping x subclass with inherited/overridden/new methods x decorated methods from an extra plain mixin base (either '
+        'dropping x dunder-named methods decorated like the others x subclass with inherited/overridden/new methods x decorated methods from an extra plain mixin base (either '
         'order) x static/class methods, properties, raising properties, attribute-carrying objects x enum values colliding '
         'with member names x unparametrised / non-enum type argument x STORED CONFIGURED DECORATORS: the program defines one factory per (type, '
         'transformation), calls it for a seeded subset of the applications FIRST (in seeded order, together with further calls of the same factory with '
@@ -63,10 +63,15 @@ ASSUMPTIONS = ['a class subscribed like typing.Sequence (typing._GenericAlias wi
                'extra parametrised mixin bases of a directly generic class are user generic classes (typing aliases `Labelled[str]`) at every position '
                'and subscripted classes without __orig_bases__ (types.GenericAlias, the stand-in for list[int]) before Generic[...] only: typing keeps '
                '`Generic` among the bases when only a types.GenericAlias follows it, which the class-table model of __mro_entries__ does not describe',
-               'inside `decoGuard`: enum values of DecoratorType members are attribute names that no other object reachable from the instance carries — '
-               'neither in its __dict__ nor by its type (the case lists what str / dict / the enum class / functions / the other objects answer to); '
-               'outside the guard every deviation from "exactly the decorated bound methods" is a property failure attributed to the named region of the '
-               'spec (`guardRegions`) it falls into — a finding id of known_findings.json — as long as model and implementation agree',
+               '"the bound methods that were decorated" is read as: the plain, class and static methods of the classes (any name, dunder names included) '
+               'that were decorated through create_decorator, each as the instance sees it — bound to the instance, bound to the class, and for a static '
+               'method (which has no bound form) the function that `instance.name` is',
+               'inside `decoGuard` (transformations keep the function attributes; no enum value names a slot of function objects such as __doc__ / '
+               '__name__) the result must be exact whatever else lives in the classes and in the instance __dict__ (properties, raising or not; objects '
+               'with attributes named like enum values; enum values that are attribute names of str / dict / the enum class — the case still lists '
+               'what these objects answer to, the model of the old scan needs it); outside the guard a deviation is a property failure attributed to '
+               'the named region of the spec (`guardRegions`: transformationDropsDecoratorAttribute, enumValueNamesFunctionSlot) it falls into — a '
+               'finding id of known_findings.json — unless the model of the unchanged code does not show it',
                'names in the instance __dict__ are fresh names or names of plain methods (never of properties: a data descriptor would win)',
                'functools.wraps-style transformations are not generated together with dunder enum values (__name__, __doc__, __wrapped__: wraps '
                'writes these itself)',
@@ -481,7 +486,7 @@ def generic_cases(rng, tier):
     add([cls_([PL(GM_ID)]), cls_([PL(LIB)])], LIB + 1, None, 'nongeneric')
     add([cls_([PL(GM_ID)]), cls_([]), cls_([PL(LIB + 1), PL(LIB)])], LIB + 2, None, 'nongeneric')
     # random tables
-    for _ in range(40000 if big else 5000):
+    for _ in range(40000 if big else 4500):
         c = random_table(rng)
         if c is not None:
             out.append(c)
@@ -864,7 +869,7 @@ def deco_case(rng, feat=None):
             else:
                 dunder_decorated = feat == 'dunder'
                 apps = rand_apps(feat == 'fresh')
-                if u >= 2 and not dunder_decorated:
+                if u >= 2 and not dunder_decorated and rng.random() < 0.5:
                     apps = [a for a in apps if a[0] not in mkeys]
                 ns.append([u, st, ['func', 'inst', apps]]); xs.append({'async': rng.random() < 0.35})
         xns[cid] = xs
@@ -966,7 +971,7 @@ FEATS = [None] * 10 + ['collision', 'static', 'prop', 'raising', 'holder', 'dund
 
 
 def deco_cases(rng, tier):
-    n = 60000 if tier != 'quick' else 9000
+    n = 60000 if tier != 'quick' else 8000
     return [deco_case(rng, rng.choice(FEATS)) for _ in range(n)]
 
 
@@ -1395,49 +1400,42 @@ def judge_history(case, impl, model, fam):
             'why': '; '.join(why[:4])}
 
 
-FINDING_REGIONS = ['propertyEvaluatedByScan', 'enumValueCollidesWithAttributeName', 'transformationDropsDecoratorAttribute',
-                   'decoratedDunderMethodSkipped', 'decoratedStaticOrClassMethodReported', 'foreignObjectWithDecoratorAttributeReported']
+FINDING_REGIONS = ['transformationDropsDecoratorAttribute', 'enumValueNamesFunctionSlot']
+METHOD_TAGS = ('bound', 'clsBound', 'plainFn')      # how the instance sees a plain / class / static method of one of its classes
+
+
+def method_entries(d):
+    """entries of one member's dict that are methods of a class of the program, as [tag, class, unders, stem, value]"""
+    return sorted([[a[0], a[1], a[2], a[3], v] for a, v in d if a[0] in METHOD_TAGS and a[1] >= 0], key=json.dumps)
 
 
 def deviations(impl_deco, spec_deco):
     """how does the answer of the implementation leave what the spec lists?  -> [(text, regions the deviation can belong to)…], every
     deviation there is"""
     if impl_deco[0] != 'ok':
-        exc = impl_deco[1]
-        # TypeError: an unhashable object (the dict that type_vars returns) answers to an enum value; anything else escaped from a property
-        return [(f"get_decorated_functions raised {exc}",
-                 ['enumValueCollidesWithAttributeName'] if exc == 'TypeError' else ['propertyEvaluatedByScan'])]
-    want = {k: sorted([[c_, u, st, v] for c_, u, st, v in d], key=json.dumps) for k, d in spec_deco}
-    got = {k: sorted([[a[1], a[2], a[3], v] for a, v in d if a[0] == 'bound'], key=json.dumps) for k, d in impl_deco[1]}
+        return [(f"get_decorated_functions raised {impl_deco[1]}", [])]
+    want = {k: sorted([list(e) for e in d], key=json.dumps) for k, d in spec_deco}
+    got = {k: method_entries(d) for k, d in impl_deco[1]}
     if list(got) != list(want):
         return [(f"members reported {list(got)}, members of the enum {list(want)}", [])]
     out = []
     for k, d in impl_deco[1]:
         for a, v in d:
-            if a[0] in ('typeArg', 'className', 'typeVars'):
-                out.append((f"member {k}: {a} reported — no method of the program", ['enumValueCollidesWithAttributeName']))
-            elif a[0] in ('plainFn', 'clsBound'):
-                out.append((f"member {k}: {a} reported — no bound method of the instance",
-                            ['decoratedStaticOrClassMethodReported', 'enumValueCollidesWithAttributeName']))
-            elif a[0] in ('obj', 'instFn'):
-                out.append((f"member {k}: {a} reported — no method of the program",
-                            ['foreignObjectWithDecoratorAttributeReported', 'enumValueCollidesWithAttributeName']))
-            elif a[0] != 'bound':
-                out.append((f"member {k}: {a} reported — no bound method of the instance", []))
+            if not (a[0] in METHOD_TAGS and a[1] >= 0):
+                out.append((f"member {k}: {a} reported — no method of a class of the program", []))
+    lost = ['transformationDropsDecoratorAttribute', 'enumValueNamesFunctionSlot']
     for k in want:
-        w = {json.dumps(e[:3]): e[3] for e in want[k]}
-        g = {json.dumps(e[:3]): e[3] for e in got[k]}
+        w = {json.dumps(e[:4]): e[4] for e in want[k]}
+        g = {json.dumps(e[:4]): e[4] for e in got[k]}
         for key, v in w.items():
             if key not in g:
-                u = json.loads(key)[1]
-                out.append((f"member {k}: decorated method {key} (value {v}) is missing",
-                            ['decoratedDunderMethodSkipped'] if u >= 2 else ['transformationDropsDecoratorAttribute']))
+                out.append((f"member {k}: decorated method {key} (value {v}) is missing", lost))
             elif g[key] != v:
-                out.append((f"member {k}: method {key} reported with value {g[key]}, decorated with {v}", ['transformationDropsDecoratorAttribute']))
+                out.append((f"member {k}: method {key} reported with value {g[key]}, decorated with {v}", lost))
         for key, v in g.items():
             if key not in w:
-                out.append((f"member {k}: method {key} reported (value {v}) although it was not decorated with this member",
-                            ['enumValueCollidesWithAttributeName']))
+                out.append((f"member {k}: method {key} reported (value {v}) although it was not decorated with this member / is not seen "
+                            f"like that through the instance", []))
     return out
 
 
@@ -1474,16 +1472,13 @@ def judge(case, impl, model):
             if impl['deco'][0] != 'ok':
                 pfail = f"get_decorated_functions raised {impl['deco'][1]}"
             else:
-                want = [[k, sorted([[c_, u, st, v] for c_, u, st, v in d], key=json.dumps)] for k, d in model['spec_deco']]
-                got = []
-                extra = []
-                for k, d in impl['deco'][1]:
-                    got.append([k, sorted([[a[1], a[2], a[3], v] for a, v in d if a[0] == 'bound'], key=json.dumps)])
-                    extra += [a for a, v in d if a[0] != 'bound']
+                want = [[k, sorted([list(e) for e in d], key=json.dumps)] for k, d in model['spec_deco']]
+                got = [[k, method_entries(d)] for k, d in impl['deco'][1]]
+                extra = [a for k, d in impl['deco'][1] for a, v in d if not (a[0] in METHOD_TAGS and a[1] >= 0)]
                 if got != want:
                     pfail = f"decorated methods reported {got}, decorated in the program {want}"
                 elif extra:
-                    pfail = f"objects that are not bound methods of the instance reported: {extra}"
+                    pfail = f"objects that are no methods of the instance reported: {extra}"
         tag = f"{fam}/{'guard' if model['guard'] else 'outside'}/{md[0] if md[0] == 'ok' else md[1]}"
         if not model['guard'] and pfail is None and model.get('spec_deco') is not None:
             # outside the guard: the property still demands "exactly the decorated bound methods"; where the implementation leaves that,
@@ -1519,9 +1514,9 @@ def extra_coverage(results):
         if c['c']['k'] == 'decorated' and not m['guard']:
             same = False
             if m.get('spec_deco') is not None and i['deco'][0] == 'ok':
-                want = [[k, sorted([[c_, u, st, v] for c_, u, st, v in d], key=json.dumps)] for k, d in m['spec_deco']]
-                got = [[k, sorted([[a[1], a[2], a[3], v] for a, v in d if a[0] == 'bound'], key=json.dumps)] for k, d in i['deco'][1]]
-                same = got == want and not any(a[0] != 'bound' for k, d in i['deco'][1] for a, v in d)
+                want = [[k, sorted([list(e) for e in d], key=json.dumps)] for k, d in m['spec_deco']]
+                got = [[k, method_entries(d)] for k, d in i['deco'][1]]
+                same = got == want and not any(not (a[0] in METHOD_TAGS and a[1] >= 0) for k, d in i['deco'][1] for a, v in d)
             key = 'outside-guard:' + c['x']['fam'].split('-')[1] + ':' + ('as-spec' if same else 'deviates')
             reported[key] = reported.get(key, 0) + 1
     sites = {}
